@@ -559,6 +559,35 @@ class SymBytes:
             return not e
         return mk_bool(z3.Not(e))
 
+    def _order(self, o, op):
+        """lexicographic order of byte strings of EQUAL concrete length = order of their big-endian values"""
+        s = to_seq_bytes(o)
+        if s is None:
+            return NotImplemented
+        la, lb = self.seq.length(), s.length()
+        if not (_is_c(la) and _is_c(lb)) or la != lb:
+            raise Unsupported('ordering of symbolic bytes of different or symbolic lengths')
+        if la == 0:
+            return op in ('<=', '>=')
+        a, b = self.seq.value(), s.value()
+        if _is_c(a) and _is_c(b):
+            return {'<': a < b, '<=': a <= b, '>': a > b, '>=': a >= b}[op]
+        a = z3.IntVal(a) if _is_c(a) else a
+        b = z3.IntVal(b) if _is_c(b) else b
+        return mk_bool({'<': a < b, '<=': a <= b, '>': a > b, '>=': a >= b}[op])
+
+    def __lt__(self, o):
+        return self._order(o, '<')
+
+    def __le__(self, o):
+        return self._order(o, '<=')
+
+    def __gt__(self, o):
+        return self._order(o, '>')
+
+    def __ge__(self, o):
+        return self._order(o, '>=')
+
     def _idx(self, i, n):
         if type(i) is SymInt:
             i = ctx().concretise(i.e, 'bytes index')
